@@ -22,3 +22,4 @@ PY
   echo "$n: fired now:$FIRED | rules: $RULES"
 done
 rm -rf /tmp/reseed
+python3 tools/seedtable.py > /dev/null
